@@ -23,6 +23,16 @@ fn main() {
         .or_else(|| std::env::var("VERIF_SEED").ok())
         .and_then(|s| s.parse().ok())
         .unwrap_or(0);
+    // processes started by the supervisor must not outlive it (a supervisor killed from outside - a timeout of
+    // whoever runs the check - would otherwise leave workers behind that may spin in a looping library call)
+    if cmd == "worker" || std::env::var("VERIF_SUPERVISED").is_ok() {
+        unsafe {
+            libc::prctl(libc::PR_SET_PDEATHSIG, libc::SIGKILL);
+            if libc::getppid() == 1 {
+                std::process::exit(2);
+            }
+        }
+    }
     let code = match cmd {
         "run" => run::supervise(find(&arg(&args, "--prop").expect("--prop")), tier, seed),
         "worker" => {
